@@ -129,39 +129,73 @@ func c19History(o *Out, rng *Rng, maxLen int) {
 	selOf := map[int]c19Sel{}
 	varOf := map[int]int{}
 	npub, nfail, nunsub, nsub := 0, 0, 0, 0
+	nmulti := 0
 	for i := 0; i < n; i++ {
 		w.log = nil
 		w.fail = map[int]bool{}
 		c := rng.Intn(10)
 		switch {
-		case c < 4: // subscribe
-			nsub++
-			topic := Pick(rng, topics)
-			sel := Pick(rng, c19Sels)
-			k := 1 + rng.Intn(50)
-			id := w.nextID
-			var doc string
-			var vars map[string]interface{}
-			arg := ""
-			if topic != "" {
-				arg = fmt.Sprintf("(topic: %q)", topic)
+		case c < 4: // subscribe: one request, one to three subscription fields, some reached through fragments
+			nf := 1
+			if rng.Chance(35) {
+				nf = 2 + rng.Intn(2)
 			}
-			if sel.usesVar {
-				doc = fmt.Sprintf("subscription S($k: Int) { listen%s %s }", arg, sel.text)
-				vars = map[string]interface{}{"k": k}
-			} else {
-				doc = fmt.Sprintf("subscription { listen%s %s }", arg, sel.text)
+			id0 := w.nextID
+			vars := map[string]interface{}{}
+			usesVar := false
+			kv := 1 + rng.Intn(50)
+			var body, frags strings.Builder
+			type reg struct {
+				pat T
+				sel c19Sel
+			}
+			var regs []reg
+			for j := 0; j < nf; j++ {
+				nsub++
+				topic := Pick(rng, topics)
+				sel := Pick(rng, c19Sels)
+				arg := ""
+				pat := N("any")
+				if topic != "" {
+					arg = fmt.Sprintf("(topic: %q)", topic)
+					pat = N("exact", S(topic))
+				}
+				if sel.usesVar {
+					usesVar = true
+				}
+				fld := fmt.Sprintf("s%d: listen%s %s", j, arg, sel.text)
+				if nf == 1 && rng.Chance(60) {
+					fld = fmt.Sprintf("listen%s %s", arg, sel.text)
+				}
+				switch rng.Intn(6) {
+				case 0:
+					body.WriteString(" ... { " + fld + " }")
+				case 1:
+					body.WriteString(" ... on Subscription { " + fld + " }")
+				case 2:
+					fmt.Fprintf(&body, " ...F%d", j)
+					fmt.Fprintf(&frags, " fragment F%d on Subscription { %s }", j, fld)
+				default:
+					body.WriteString(" " + fld)
+				}
+				regs = append(regs, reg{pat, sel})
+			}
+			doc := "subscription {" + body.String() + " }" + frags.String()
+			if usesVar {
+				doc = "subscription S($k: Int) {" + body.String() + " }" + frags.String()
+				vars["k"] = kv
 			}
 			res := safeResolve(root, doc, "", vars)
-			okReg := w.nextID == id+1 && res["errors"] == nil
-			selOf[id] = sel
-			varOf[id] = k
-			pat := N("any")
-			if topic != "" {
-				pat = N("exact", S(topic))
+			okReg := w.nextID == id0+nf && res["errors"] == nil
+			if nf > 1 {
+				nmulti++
 			}
-			ops = append(ops, N("sub", pat, B(sel.usesVar)))
-			obs = append(obs, N("o", L(), L(), I(0), B(okReg)))
+			for j, rg := range regs {
+				selOf[id0+j] = rg.sel
+				varOf[id0+j] = kv
+				ops = append(ops, N("sub", rg.pat, B(rg.sel.usesVar)))
+				obs = append(obs, N("o", L(), L(), I(0), B(okReg)))
+			}
 			human = append(human, "subscribe "+doc)
 		case c < 8: // publish
 			npub++
@@ -251,6 +285,7 @@ func c19History(o *Out, rng *Rng, maxLen int) {
 	}
 	o.Count(fmt.Sprintf("len<=%d", ((n+9)/10)*10))
 	o.stats["ops.subscribe"] += nsub
+	o.stats["ops.subscribe requests with several fields"] += nmulti
 	o.stats["ops.publish"] += npub
 	o.stats["ops.publish_with_failures"] += nfail
 	o.stats["ops.unsubscribe"] += nunsub
